@@ -109,6 +109,7 @@ class SimCluster(object):
         self.coordinator = {}  # group -> broker id
         self.offsets = {}  # (group, topic, partition) -> (offset, metadata)
         self.groups = {}  # group -> GroupState (managed groups only)
+        self.group_defaults = {}  # group -> kwargs for GroupState (leader preference, phantom member)
         self.journal = []  # every Req ever received, in arrival order
         self.modes = []  # sticky faults: dicts(api, topic, partition, broker, err|silent, budget)
         self.default_coordinator = None
@@ -334,7 +335,7 @@ class SimCluster(object):
             plist = []
             for pn in parts:
                 ld = self.leader[(name, pn)]
-                if ld != -1 and not self.brokers[ld]["up"]:
+                if ld != -1 and (ld not in self.brokers or not self.brokers[ld]["up"]):
                     ld = -1
                 plist.append({"error": 5 if ld == -1 else 0, "partition": pn, "leader": ld,
                               "replicas": [] if ld == -1 else [ld], "isr": [] if ld == -1 else [ld]})
